@@ -103,7 +103,7 @@ SymbolString nondet_SS(void);
 void h_glue(void) {
   NDT t = nondet_NDT(); SymbolString in = nondet_SS(), out = nondet_SS(); struct tokout o; struct iss text; size_t used;
   g_rr_result = nondet_int(); g_pi_result = nondet_int(); g_rf_result = nondet_int(); g_wr_result = nondet_int(); g_rr_value = nondet_uint(); g_pi_value = nondet_uint(); text.text = nondet_int();
-  __CPROVER_assume(g_rr_result <= 1 && g_rr_result >= -20 && g_pi_result <= 1 && g_pi_result >= -20 && g_rf_result <= 1 && g_rf_result >= -20 && g_wr_result <= 1 && g_wr_result >= -20);
+  __CPROVER_assume(g_rr_result <= 1 && g_rr_result >= -30 && g_pi_result <= 1 && g_pi_result >= -30 && g_rf_result <= 1 && g_rf_result >= -30 && g_wr_result <= 1 && g_wr_result >= -30);
   g_rf_calls = 0; g_wr_calls = 0; o.n = 0;
   result_t r = NDT_readSymbols(&t, nondet_size(), nondet_size(), &in, nondet_uint(), &o);
   if (g_rr_result != RESULT_OK) { __CPROVER_assert(r == g_rr_result && g_rf_calls == 0, "[C05] an undecodable pattern is rejected and nothing is shown"); }
